@@ -304,6 +304,36 @@ def main():
                         h.violation("reuse:changed", f"{tag}: reusing the directory changed index_rel.wtml", input=tag)
                     prev = on_disk
                 shutil.rmtree(base, ignore_errors=True)
+        # ---- tile_fits, TOAST, SEVERAL images of different pixel scales (in either order), no explicit start level: one pyramid, one
+        # TileLevels — the depth of the deepest populated layer
+        for order in ((0, 1), (1, 0)):
+            k += 1
+            base = os.path.join(root, f"multi{k}")
+            os.makedirs(base)
+            specs = [(os.path.join(base, "fine.fits"), 48, 40, (30.0, 10.0), 1.0 / 60), (os.path.join(base, "coarse.fits"), 40, 48, (200.0, -35.0), 4.0 / 60)]
+            for (fp, w, hh, crval, sc) in specs:
+                make_fits(fp, w, hh, crval=crval, scale=sc)
+            paths = [specs[i][0] for i in order]
+            tag = f"tile_fits/toast/2 images, {'fine' if order[0] == 0 else 'coarse'} first"
+            try:
+                with warnings.catch_warnings():
+                    warnings.simplefilter("ignore")
+                    odir, bld = toasty.tile_fits(paths, out_dir=os.path.join(base, "out"), tiling_method=TilingMethod.TOAST, parallel=1)
+            except Exception as e:
+                h.violation("crash:tile_fits:multi", f"{tag}: tile_fits raised {type(e).__name__}: {e}", input=tag)
+                h.case((tag,))
+                continue
+            h.case((tag,))
+            h.count("workflow", "tile_fits-toast-multi")
+            res = check_dir(h, tag, odir, "LsYsYX", lines, py, full=False)
+            if res is not None:
+                imgset, place = res
+                on_disk = desc_of(imgset, place)
+                returned = desc_of(bld.imgset, bld.place if place is not None else None)
+                if on_disk != returned:
+                    diff = {kk: (returned.get(kk), on_disk.get(kk)) for kk in on_disk if on_disk.get(kk) != returned.get(kk)}
+                    h.violation("returned:multi", f"{tag}: the description returned by tile_fits differs from index_rel.wtml: (returned, on disk) = {diff}", input=tag, observed=diff)
+            shutil.rmtree(base, ignore_errors=True)
         # ---- pipeline process_todos with a stub image source
         try:
             from toasty import pipeline as PL
